@@ -47,8 +47,8 @@ def xworld(ctx):
 
 def run(ctx):
     F = folder(ctx)
+    _reader(ctx, F)          # (the concrete probe table first: its verdicts stand whatever the symbolic part can follow)
     _factors(ctx)
-    _reader(ctx, F)
     _sld(ctx)
     _cromer(ctx, F)
     # the Cromer-Mann reader and its data (shared with C20-R5): column order a1..a5 c b1..b5, sum a_i + c = Z - charge
@@ -133,6 +133,44 @@ def _reader(ctx, F):
         ctx.check(close(fr(f2[0]), 1.5) and close(fr(f2[1]), 3.5) and close(fr(f2[2]), -9999), "R2",
                   "column 2 is f2 (its values are not touched by the -9999 filter)", f"f2 = {f2}", site)
     ctx.check(asked and asked[0].endswith("/fe.nff"), "R2", "the file is <lower-case symbol>.nff in the xsf data directory", f"asked for {asked}", site)
+    if ok:
+        # the lookup on this table at concrete energies: every node (first and last included), points between nodes, points
+        # outside - as a vector and one by one; whatever the implementation, the values are the linear interpolant, NaN outside
+        R_ = sp.Rational
+        mid = (R_(7, 2) - 9999) / 2
+        expect = [(R_(1, 100), sp.nan, R_(3, 2)), (R_(3, 200), sp.nan, R_(5, 2)), (R_(2, 100), R_(5, 2), R_(7, 2)),
+                  (R_(5, 200), R_(7, 2), mid), (R_(3, 100), R_(9, 2), R_(-9999)), (R_(1, 200), sp.nan, sp.nan), (R_(7, 200), sp.nan, sp.nan)]
+        s_sf = fsite(ctx, "xsf.Xray.scattering_factors")
+        sf = I.getattr(xr, "scattering_factors")
+
+        def same(a_, b_):
+            if b_ is sp.nan:
+                return a_ is sp.nan or sp.sympify(a_) is sp.nan
+            try:
+                return sp.simplify(sp.sympify(a_) - b_) == 0
+            except (TypeError, sp.SympifyError):
+                return False
+        rr = raises(lambda: I.call(sf, [], {"energy": Vec([e_ for e_, _, _ in expect])}))
+        if rr is not None:
+            ctx.fail("R1", "lookup on a concrete table with a vector of energies", f"raises {rr}", s_sf)
+        else:
+            v1, v2 = I.call(sf, [], {"energy": Vec([e_ for e_, _, _ in expect])})
+            okv = isinstance(v1, Vec) and isinstance(v2, Vec) and len(v1) == len(expect) == len(v2)
+            ctx.check(okv, "R1", "a vector of energies gives a vector per factor", f"{_s(v1)}, {_s(v2)}", s_sf)
+            if okv:
+                for (e_, w1, w2), g1, g2 in zip(expect, v1.items, v2.items):
+                    where_ = "first node" if e_ == R_(1, 100) else "last node" if e_ == R_(3, 100) else "a node" if e_ == R_(2, 100) \
+                        else "outside the table" if w2 is sp.nan else "between nodes"
+                    ctx.check(same(g1, w1) and same(g2, w2), "R1", f"vector lookup at {float(e_):g} keV ({where_}) on the 3-row probe table",
+                              f"(f1, f2) = ({_s(g1, 40)}, {_s(g2, 40)}), the table gives ({w1}, {w2})", s_sf, witness=f"energy={float(e_):g} keV")
+        for e_, w1, w2 in expect:
+            rr = raises(lambda: I.call(sf, [], {"energy": e_}))
+            if rr is not None:
+                ctx.fail("R1", f"scalar lookup at {float(e_):g} keV on the probe table", f"raises {rr}", s_sf)
+                continue
+            g1, g2 = I.call(sf, [], {"energy": e_})
+            ctx.check(same(g1, w1) and same(g2, w2), "R1", f"scalar lookup at {float(e_):g} keV on the 3-row probe table",
+                      f"(f1, f2) = ({_s(g1, 40)}, {_s(g2, 40)}), the table gives ({w1}, {w2})", s_sf, witness=f"energy={float(e_):g} keV")
     tab2 = I.getattr(xr, "sftable")
     ctx.check(tab2 is tab, "R2", "the table is loaded once per Xray object", "reloaded", site)
     # a second holder of the same file (an ion) gets an equally scaled, independent table
@@ -235,6 +273,19 @@ def _sld(ctx):
     for i in (0, 1):
         eq(ctx, "R3", f"{'rho' if i == 0 else 'irho'} does not depend on which isotopes are present at equal natural density",
            g_iso[i], g_nat[i], site, nonzero=[q[0] * mass_sym("Fe") + q[1] * mass_sym("O"), q[0] * mass_sym("Fe56") + q[1] * mass_sym("O")])
+    # a pre-built Formula (with or without a density of its own) handed over with density= / natural_density= is evaluated at
+    # the density asked for, like any other form of the compound
+    fm_ = I.global_name("formulas", "formula")
+    for own in ({"density": sp.Symbol("rho_own", positive=True)}, {}):
+        fobj = I.call(fm_, [{A["isotope"]: q[0], O: q[1]}], dict(own))
+        g_f = I.call(xs, [fobj], {"natural_density": nd, "energy": E})
+        eq(ctx, "R3", f"Formula object {'with' if own else 'without'} its own density + natural_density=: rho is that of the natural density asked for",
+           g_f[0], g_iso[0], site, nonzero=[q[0] * mass_sym("Fe") + q[1] * mass_sym("O"), q[0] * mass_sym("Fe56") + q[1] * mass_sym("O")])
+        fobj = I.call(fm_, [{A["isotope"]: q[0], O: q[1]}], dict(own))
+        g_d = I.call(xs, [fobj], {"density": nd, "energy": E})
+        g_dd = I.call(xs, [{A["isotope"]: q[0], O: q[1]}], {"density": nd, "energy": E})
+        eq(ctx, "R3", f"Formula object {'with' if own else 'without'} its own density + density=: rho is that of the density asked for",
+           g_d[0], g_dd[0], site, nonzero=[q[0] * mass_sym("Fe") + q[1] * mass_sym("O"), q[0] * mass_sym("Fe56") + q[1] * mass_sym("O")])
     # f1 and f2 flow separately: a missing f1 (NaN below the first tabulated value) must not reach irho, nor f2 reach rho
     from ptstat.taint import tainted_names, names_in
     for qual in ("xsf.xray_sld", "xsf.Xray.sld"):
